@@ -73,7 +73,14 @@ def run(ctx, rule, roots, label, exclude_prefix=()):
     for s in sites:
         fn = s.fn
         status, why = None, ""
-        if s.kind.startswith("assert"):
+        if s.kind == "assert:other":
+            # debug-build pointer validity checks the compiler inserts around `vec![..]`/box allocation: the pointer comes
+            # straight from the allocator (failure aborts via handle_alloc_error, it does not reach the check)
+            sp = s.term.sp or {}
+            txt = s.term.j["msg"].get("text", "")
+            if sp.get("exp") and sp.get("macro") in ("vec", "format", "println", "eprintln", "write", "writeln") and ("PointerDereference" in txt):
+                status, why = "T2e", "compiler-inserted pointer check on a fresh allocation inside %s!" % sp.get("macro")
+        elif s.kind.startswith("assert"):
             za = zc.get(fn)
             ok, why = panic.t1_assert(za, s)
             if not ok:
@@ -93,6 +100,9 @@ def run(ctx, rule, roots, label, exclude_prefix=()):
             else:
                 ok, why = panic.t1_index(zc.get(fn), s)
                 status = "T1" if ok else None
+        elif s.kind == "seqop":
+            ok, why = panic.t1_seqop(zc.get(fn), s)
+            status = "T1" if ok else None
         elif s.kind == "refcell":
             ok, why = _refcell(prog, s)
             status = "T2d" if ok else None
